@@ -1418,6 +1418,10 @@ class SyncedStackedTransforms(StackedTransforms):
         except ImportError:  # pragma: no cover
             pass
 
+        if info is not None:
+            # The new code refers to its function through this global: it must
+            # denote the target before another thread can run the new code
+            fn.__globals__[token] = fn
         fn.__code__ = code
         fn.__ptera_discard__ = False
         if info is None:
@@ -1428,4 +1432,3 @@ class SyncedStackedTransforms(StackedTransforms):
         else:
             fn.__ptera_info__ = info
             fn.__ptera_token__ = token
-            fn.__globals__[fn.__ptera_token__] = fn
